@@ -14,6 +14,7 @@ read, `self.__class__` records the constructor arguments):
 Bounded stand-in: EnergyResult.save -> from_npz on real files (1-2 energy axes, ranks 0-2, every pre-defined transform incl. swap_axes,
 comment) reproduces energies, data, rank, transformations, comment.
 """
+import abc
 import contextlib
 import io
 import os
@@ -304,6 +305,102 @@ def _kres(U):
         U.ensure("results with different band counts or transformations do not fit", a.fit(c_) is False and a.fit(KB(sym_real_array("e", (2, 2, 3)), transformTR="X", transformInv="INV", rank=1)) is False)
     U.run(body, check_feasible=False)
 
+
+
+# ------------------------------------------------------------------ persistence on the extracted text (npz file = external contract)
+class _NpzStore:
+    """external contract of np.savez_compressed(f, **kw) followed by np.load(f, allow_pickle=True), as documented by numpy: every keyword
+    is stored as numpy.asarray(value) (str -> 0-d string array, dict / None -> 0-d object array whose .item() is the object, list of str ->
+    1-d string array) and comes back under its key; a key never written raises KeyError; `in` tells which keys exist.  Validated on the
+    installed numpy by the stand-in below (real files)."""
+    def __init__(self):
+        self.files = {}
+
+    class _F:
+        def __init__(self, name, mode):
+            self.name, self.mode = name, mode
+
+        def __enter__(self):
+            return self
+
+        def __exit__(self, *a):
+            return False
+
+    def open(self, name, mode="r"):
+        if "r" in mode and name not in self.files:
+            raise FileNotFoundError(name)
+        return self._F(name, mode)
+
+    def savez(self, f, *args, **kw):
+        assert not args and "w" in f.mode and "b" in f.mode
+        out = {}
+        for k, v in kw.items():
+            a = rnp.empty((), dtype=object) if isinstance(v, (dict, set)) or v is None else None
+            if a is not None:
+                a[()] = v
+            else:
+                a = rnp.asarray(v)
+            out[k] = a
+        self.files[f.name] = out
+
+    def load(self, f, allow_pickle=False, **kw):
+        assert "r" in f.mode and "b" in f.mode
+        d = self.files[f.name]
+        assert allow_pickle or not any(a.dtype == object for a in d.values()), "object arrays need allow_pickle=True"
+        return dict(d)
+
+
+def _persist_unit(shape, nE, rank, tTR, tInv, titles, label):
+    @unit("C16", "EnergyResult save -> from_npz round trip [extracted text; %s]" % label, scope="shape:%s, %d energy axes, rank %d" % (shape, nE, rank), expect_min=7)
+    def _p(U):
+        import functools
+        import types
+        st = _NpzStore()
+        sh = Shim(overrides=dict(savez_compressed=st.savez, savez=st.savez, load=st.load))
+        fos = types.SimpleNamespace(path=types.SimpleNamespace(isfile=lambda n: n in st.files, join=os.path.join, exists=lambda n: n in st.files))
+        quiet = lambda *a, **k: None
+        import warnings
+        gp = dict(np=sh, warnings=warnings)
+        Transform = U.klass(FP, "Transform", globs=gp)
+        gp["Transform"] = Transform
+        tfd = U.fn(FP, "transform_from_dict", globs=gp, model=False)
+        g = dict(np=sh, abc=abc, os=fos, open=st.open, print=quiet, transform_from_dict=tfd, VoidResult=Void, VoidSmoother=lambda: "void-smoother",
+                 cached_property=functools.cached_property)
+        Res = U.klass(FR, "Result", globs=g, only=("__init__", "save"))
+        ER = U.klass(FE, "EnergyResult", globs=g, bases=(Res,), only=("__init__", "from_npz", "as_dict", "set_smoother"))
+
+        def body():
+            Es = [rnp.linspace(-1.0, 1.0 + i, shape[i]) for i in range(nE)]
+            data = sym_real_array("d", shape)
+            comment = "first line\nsecond line of %s" % label
+            kw = {} if titles is None else dict(E_titles=titles)
+            a = ER(Energies=Es, data=data, transformTR=Transform(**tTR), transformInv=Transform(**tInv), rank=rank, comment=comment, save_mode="bin", **kw)
+            a.save("dir/res{}")
+            U.ensure("save(name) writes exactly one file, name + '.npz'", sorted(st.files) == ["dir/res.npz"])
+            b = ER.from_npz("dir/res.npz")
+            U.ensure("loaded object is an energy-resolved result with as many energy axes", isinstance(b, ER) and len(b.Energies) == nE and b.N_energies == nE)
+            U.ensure("energies reproduced, axis by axis, in order", len(b.Energies) == nE and all(rnp.array_equal(rnp.asarray(x, dtype=float), y) for x, y in zip(b.Energies, Es)))
+            U.ensure("data reproduced element-wise", _eq(b.data, data))
+            U.ensure("rank reproduced", int(b.rank) == rank)
+
+            def same(t0, t1):
+                return isinstance(t1, Transform) and all(
+                    (getattr(t1, k) is None) == (t0.get(k) is None) and (t0.get(k) is None or tuple(rnp.ravel(getattr(t1, k))) == tuple(rnp.ravel(t0[k])))
+                    for k in ("transpose_axes", "swap_axes")) and t1.factor == t0.get("factor", 1) and bool(t1.conj) == bool(t0.get("conj", False))
+            U.ensure("time-reversal and inversion transformations reproduced, each under its own name", same(tTR, b.transformTR) and same(tInv, b.transformInv))
+            U.ensure("comment and energy titles reproduced", b.comment == comment and [str(x) for x in b.E_titles] == [str(x) for x in a.E_titles])
+            U.ensure("a missing file gives the void result when asked to, and is an error otherwise", isinstance(ER.from_npz("dir/absent.npz"), Void))
+            try:
+                ER.from_npz("dir/absent.npz", void_if_missing=False)
+                U.ensure("a missing file is an error when void_if_missing=False", False)
+            except FileNotFoundError:
+                U.ensure("a missing file is an error when void_if_missing=False", True)
+        U.run(body, check_feasible=False)
+
+
+_persist_unit((3,), 1, 0, dict(factor=-1), dict(), None, "scalar, odd under TR, default titles")
+_persist_unit((2, 3, 3, 3), 2, 2, dict(factor=-1, conj=True, transpose_axes=(1, 0)), dict(swap_axes=(0, 1)), ["Efermi", "Omega"], "rank 2, two energy axes of different length, transposing / swapping transformations")
+_persist_unit((2, 3, 2, 3), 3, 1, dict(conj=True), dict(factor=-1), ["Efermi"], "three energy axes, fewer titles than axes")
 
 # ------------------------------------------------------------------ bounded stand-in: save / load
 def _real_save(rng, n):
